@@ -19,7 +19,7 @@ RULE = ('random netlist plans from the block catalogue (3-40 blocks = 5-250 leav
         'each instantiated under identity/reverse/random permutations of block order and of wire order (all n! for n <= 5 blocks), '
         'designs with gated clock domains (wrappers whose ClockDriver enable is a poked input, a toggling register or a delayed input, holding registers and '
         'combinational leaves fed from outside and inside the domain), reversed/shuffled inverter chains of 50-400 (and 1001) leaves, and plans with one injected loop (self, 2, n, through a wrapper, '
-        'rewired back edge, behind a sorted prefix; through a Reg = legal); a case is (plan, block order, wire order); '
+        'rewired back edge, behind a sorted prefix; through a Reg = legal); the simulator is created through getSimulator(), directly with Simulator(sys), by a Scope constructor or by a repeated getSimulator(), and clock calls are clk(n) with n = 0, 1, 2-5, 17-40; a case is (plan, block order, wire order, creation mode); '
         'non-trivial = the initial leaf list of that order is not already topological (>= 1 inverted dependency edge) '
         'or the plan is cyclic; distinct by content hash of (plan, orders)')
 SHARDS = {'quick': 1, 'thorough': 16}
@@ -54,7 +54,7 @@ def leaf_driver(leaf):
         return None
 
 
-def fixpoint_check(run, sim, when, case, stats, leaves=None, gated_off=()):
+def fixpoint_check(run, sim, when, case, stats, leaves=None, gated_off=(), extra=None):
     """Monitor 1. Returns True when every stateless leaf is at its fixpoint.
     leaves: the propagatable leaves found by the harness' own traversal (default sim.propagatables);
     gated_off: ids of the clock drivers whose enable wire was 0 during the clock cycle just simulated -- gating a clock
@@ -76,9 +76,10 @@ def fixpoint_check(run, sim, when, case, stats, leaves=None, gated_off=()):
         if before != after:
             ok = False
             cls = type(leaf).__name__
-            run.violation('not_fixpoint', dict(block=cls, when=when, domain_gated_off=off), case, expected=after, observed=before,
-                          what='%s %s is not at its fixpoint %s%s: outputs %r, recomputed %r' % (
-                              cls, leaf.getFullPath(), when, ' (its clock domain was gated off in this cycle)' if off else '', before, after))
+            run.violation('not_fixpoint', dict(dict(block=cls, when=when, domain_gated_off=off), **(extra or {})), case, expected=after, observed=before,
+                          what='%s %s is not at its fixpoint %s%s%s: outputs %r, recomputed %r' % (
+                              cls, leaf.getFullPath(), when, ' (its clock domain was gated off in this cycle)' if off else '',
+                              ' %r' % (extra,) if extra else '', before, after))
             break
     return ok
 
@@ -136,12 +137,15 @@ def classify_refusal(e):
     return 'pass_limit' if 'Excessive loop count' in str(e) else type(e).__name__
 
 
-def run_order(run, plan, bo, wo, hist, stats, meta, late=None):
+def run_order(run, plan, bo, wo, hist, stats, meta, late=None, how='get'):
     """one (plan, block order, wire order): build, monitors 1, 3 (and 4 for the accept side); returns the list of
     wire-value snapshots (construction + one per cycle) or None when the case was refused / violated.
     late=k: getSimulator() is called a first time after k blocks exist; the others are late additions that the second
-    getSimulator() must schedule (HWSystem.getSimulator re-sorts on every call)."""
-    case = dict(plan=plan, block_order=bo, wire_order=wo, inputs=hist, meta=meta, late=late)
+    getSimulator() must schedule (HWSystem.getSimulator re-sorts on every call).
+    how: the way the simulator is created (netgen.Built.simulator): 'get' | 'direct' | 'scope' | 'twice'.
+    hist[0] is poked before the simulator exists; every later entry is poked and followed by clk(entry.get('#n', 1))
+    -- n = 0 is a legal clock call and must leave the netlist settled like any other."""
+    case = dict(plan=plan, block_order=bo, wire_order=wo, inputs=hist, meta=meta, late=late, how=how)
     snaps = []
     with hooks.install(keep_events=False) as rec:
         early = []
@@ -164,7 +168,8 @@ def run_order(run, plan, bo, wo, hist, stats, meta, late=None):
         if hist and hist[0]:
             b.poke(hist[0])
         try:
-            sim = b.simulator()
+            sim = b.simulator(how)
+            stats['created_' + how] = stats.get('created_' + how, 0) + 1
         except Exception as e:
             run.ev()
             stats['refused'] = stats.get('refused', 0) + 1
@@ -189,7 +194,7 @@ def run_order(run, plan, bo, wo, hist, stats, meta, late=None):
             return ('accepted_cyclic', inv, cyc)
         ok = schedule_check(run, b, sim, leaves, succ, case, stats)
         if late is None:
-            ok = fixpoint_check(run, sim, 'construct', case, stats, leaves) and ok
+            ok = fixpoint_check(run, sim, 'construct', case, stats, leaves, extra=dict(created=how)) and ok
             snaps.append(netgen.wire_values(b.hw))
         else:
             stats['late_addition_cases'] = stats.get('late_addition_cases', 0) + 1
@@ -217,9 +222,12 @@ def run_order(run, plan, bo, wo, hist, stats, meta, late=None):
         for vals in hist[1:]:
             b.poke(vals)
             off_now.clear()
+            ncyc = vals.get('#n', 1)
+            ncls = 'n0' if ncyc == 0 else ('n1' if ncyc == 1 else 'many')
+            stats['clk_calls_' + ncls] = stats.get('clk_calls_' + ncls, 0) + 1
             try:
                 with muted():
-                    sim.clk(1)
+                    sim.clk(ncyc)
             except Exception as e:
                 run.violation('sim_raises', dict(exc=type(e).__name__), case, observed=repr(e)[:200], what='clk raises %r' % e)
                 return ('error', inv, cyc)
@@ -227,7 +235,7 @@ def run_order(run, plan, bo, wo, hist, stats, meta, late=None):
                 stats['cycles_with_a_domain_gated_off'] = stats.get('cycles_with_a_domain_gated_off', 0) + 1
             elif drivers:
                 stats['cycles_with_all_gated_domains_running'] = stats.get('cycles_with_all_gated_domains_running', 0) + 1
-            ok = fixpoint_check(run, sim, 'after_clk', case, stats, leaves, set(off_now)) and ok
+            ok = fixpoint_check(run, sim, 'after_clk', case, stats, leaves, set(off_now), extra=dict(clk_n=ncls)) and ok
             snaps.append(netgen.wire_values(b.hw))
         for k in ('construct:propagate', 'pre:propagate', 'propagating:propagate', 'clocking:clock', 'construct:sort'):
             stats['ev_' + k] = stats.get('ev_' + k, 0) + rec.phase_counts.get(k, 0)
@@ -242,7 +250,15 @@ def make_hist(plan, rnd, m):
     first = {i: rnd.getrandbits(ws[i]) for i in plan['inputs']} if rnd.random() < 0.6 else {}
     hist.append(first)
     for _ in range(m):
-        hist.append({i: rnd.getrandbits(ws[i]) for i in plan['inputs']})
+        h = {i: rnd.getrandbits(ws[i]) for i in plan['inputs']}
+        x = rnd.random()
+        if x < 0.25:
+            h['#n'] = 0
+        elif x < 0.35:
+            h['#n'] = rnd.randint(2, 5)
+        elif x < 0.38:
+            h['#n'] = rnd.randint(17, 40)
+        hist.append(h)
     return hist
 
 
@@ -260,6 +276,9 @@ def check_plan(run, plan, rnd, k_orders, m_cycles, stats, meta, exhaustive_max=5
     cases = [(bo, wids, 'blocks') for bo in border[1:]]
     if len(bids) >= 2:
         cases.append((border[min(2, len(border) - 1)], wids, 'late'))
+    cases.append((border[-1], wids, 'how:direct'))
+    cases.append((bids, wids, 'how:' + rnd.choice(['direct', 'scope', 'twice'])))
+    cases.append((border[1 % len(border)], wids, 'how:' + rnd.choice(['scope', 'twice'])))
     if wire_perms:
         for wo in netgen.orders(wids, rnd, 3, 0)[1:]:
             cases.append((bids, wo, 'wires'))
@@ -270,7 +289,8 @@ def check_plan(run, plan, rnd, k_orders, m_cycles, stats, meta, exhaustive_max=5
         if run.too_many:
             break
         lk = rnd.randint(1, len(bids) - 1) if which == 'late' else None
-        r = run_order(run, plan, bo, wo, hist, stats, meta, late=lk)
+        how = which[4:] if which.startswith('how:') else 'get'
+        r = run_order(run, plan, bo, wo, hist, stats, meta, late=lk, how=how)
         stats['orders'] = stats.get('orders', 0) + 1
         if r[1] > 0:
             run.nt(stable_hash([ph, bo, wo]))
@@ -287,7 +307,7 @@ def check_plan(run, plan, rnd, k_orders, m_cycles, stats, meta, exhaustive_max=5
             if a != c:
                 diff = sorted(k for k in set(a) | set(c) if a.get(k) != c.get(k))[:6]
                 run.violation('order_dependent_values', dict(when='construct' if t == 0 else 'after_clk', perm=which),
-                              dict(plan=plan, block_order=bo, wire_order=wo, inputs=hist, meta=meta, late=lk),
+                              dict(plan=plan, block_order=bo, wire_order=wo, inputs=hist, meta=meta, late=lk, how=how),
                               expected={k: a.get(k) for k in diff}, observed={k: c.get(k) for k in diff},
                               what='wire values differ from the identity order at step %d (%s permuted): %s' % (t, which, diff[:3]))
                 break
@@ -436,6 +456,10 @@ def post_merge(run, tier, seed):
     rej = run.extra.get('rejection_table', {})
     if not any(':cyclic:' in k for k in rej):
         run.inconclusive.append('rejection monitor saw no cyclic netlist')
+    for k, why in (('created_direct', 'no simulator was constructed directly with Simulator(sys)'), ('created_scope', 'no simulator was created by a Scope constructor'),
+                   ('created_twice', 'getSimulator() was never called twice in a row'), ('clk_calls_n0', 'clk(0) was never called'), ('clk_calls_many', 'clk(n>1) was never called')):
+        if not c.get(k):
+            run.inconclusive.append(why)
     if not c.get('fixpoint_checks_in_gated_off_domain'):
         run.inconclusive.append('no fixpoint check was made on a leaf of a gated-off clock domain')
     if c.get('gated_skipped_time'):
@@ -453,7 +477,7 @@ def replay(run, case):
     hist = [{k: (int(v, 16) if isinstance(v, str) else v) for k, v in h.items()} for h in c.get('inputs', [{}])]
     meta = c.get('meta', {})
     n0 = len(run.violations) + sum(v[1] for v in run.known_hits.values())
-    r = run_order(run, plan, c.get('block_order', bids), c.get('wire_order', wids), hist, stats, meta, late=c.get('late'))
+    r = run_order(run, plan, c.get('block_order', bids), c.get('wire_order', wids), hist, stats, meta, late=c.get('late'), how=c.get('how', 'get'))
     print('replay: order under test ->', r[0], 'inverted edges', r[1])
     bad = len(run.violations) + sum(v[1] for v in run.known_hits.values()) > n0
     if r[0] == 'ok' and not plan.get('fault'):
